@@ -572,31 +572,36 @@ void splinetable<Alloc>::write_fits(const std::string& filePath) const{
 	if (error != 0)
 		throw std::runtime_error("Failed to determine size of FITS file");
 	
+	//CFITSIO takes the name as an output specification ("out.fits",
+	//"file://out.fits", "out.fits.gz", "-" or "stdout.gz" for the standard
+	//output, ...): find out which file, if any, it writes.
+	std::string kind = "file://", writtenPath = filePath;
+	if (writtenPath=="-" || writtenPath=="stdout" || writtenPath=="STDOUT"
+	    || writtenPath=="-.gz" || writtenPath=="stdout.gz" || writtenPath=="STDOUT.gz")
+		kind = "stdout://";
+	else if (writtenPath.compare(0,7,"file://")==0)
+		writtenPath.erase(0,7);
+	else if (writtenPath.find("://")!=std::string::npos)
+		kind = "other"; //memory, shared memory, ...
+	if (kind=="file://" && writtenPath.find_first_of("[(")!=std::string::npos)
+		kind = "other"; //compression or template specification
+	else if (kind=="file://" && writtenPath.size()>=3
+	         && writtenPath.compare(writtenPath.size()-3,3,".gz")==0)
+		kind = "compressoutfile://";
+	
 	//Most data only reaches the file when it is flushed and closed, so errors
 	//at that point must not be swallowed.
 	cleanup.fits=nullptr;
 	fits_close_file(fits, &error);
 	if (error != 0){
 		fits_report_error(stderr, error);
-		remove(filePath.c_str());
+		if (kind=="file://" || kind=="compressoutfile://")
+			remove(writtenPath.c_str());
 		throw std::runtime_error("CFITSIO failed to finish writing "+filePath+": Error "+std::to_string(error));
 	}
 	//CFITSIO does not report all failures to flush or position the file, so
-	//make sure that all of the data arrived. It takes the name as an output
-	//specification ("out.fits", "file://out.fits", "out.fits.gz", "-" for
-	//the standard output, ...): look at the file which it actually wrote.
-	std::string kind = "file://", writtenPath = filePath;
-	if (writtenPath.compare(0,7,"file://")==0)
-		writtenPath.erase(0,7);
-	else if (writtenPath.find("://")!=std::string::npos)
-		kind = "other"; //memory, shared memory, ...
-	if (writtenPath=="-" || writtenPath=="stdout" || writtenPath=="STDOUT")
-		kind = "stdout://";
-	else if (writtenPath.find_first_of("[(")!=std::string::npos)
-		kind = "other"; //compression or template specification
-	else if (kind=="file://" && writtenPath.size()>=3
-	         && writtenPath.compare(writtenPath.size()-3,3,".gz")==0)
-		kind = "compressoutfile://";
+	//make sure that all of the data arrived: look at the file which it
+	//actually wrote.
 	if (kind=="file://")
 	{
 		std::ifstream written(writtenPath.c_str(), std::ios::binary|std::ios::ate);
